@@ -10,6 +10,7 @@ import (
 
 	"github.com/douban/gobeansdb/cmem"
 	"github.com/douban/gobeansdb/config"
+	"github.com/douban/gobeansdb/utils"
 )
 
 const (
@@ -112,6 +113,10 @@ func readRecordAtPath(path string, offset uint32) (*WriteRecord, error) {
 }
 
 func readRecordAt(path string, f *os.File, offset uint32) (wrec *WriteRecord, err error) {
+	if utils.VerifOn {
+		utils.Verif("r.file.begin", path, offset)
+		defer func() { utils.Verif("r.file", path, offset, err == nil) }()
+	}
 	wrec = newWriteRecord()
 	defer func() {
 		if err != nil {
